@@ -164,7 +164,7 @@ Proof.
 Qed.
 
 Lemma acquire_sim t s :
-  wf s -> let '(s', e) := do_acquire t s in
+  wf s -> let '(s', e) := do_acquire (timed_of t) s in
   wf s' /\ spec_step KSem 0 (abs s) (Acquire t) = (abs s', e).
 Proof.
   intros (HS & HB & HP). unfold do_acquire, spec_step, abs. simpl.
@@ -359,7 +359,7 @@ Lemma step_sim k v0 s o :
           spec_step k v0 (abs s) o = (abs (fst (step k v0 s o)), snd (step k v0 s o)).
 Proof.
   intros H. destruct o as [t| |w|w|]; simpl.
-  - pose proof (acquire_sim t s H) as A. destruct (do_acquire t s). exact A.
+  - pose proof (acquire_sim t s H) as A. destruct (do_acquire (timed_of t) s). exact A.
   - pose proof (release_sim k v0 s H) as A. destruct (do_release k v0 s). exact A.
   - pose proof (fire_sim k v0 w s H) as A. destruct (do_fire w s). exact A.
   - pose proof (cancel_sim k v0 w s H) as A. destruct (do_cancel w s). exact A.
